@@ -66,6 +66,11 @@ pub trait Lk {
 	fn is_retry(&self) -> bool {
 		false
 	}
+	/// every non-acquiring accessor this type offers through `&self`
+	/// (child, iter, as_ref, into_iter(&), is_poisoned, clear_poison); returns how many were called
+	fn accessors(&self) -> u32 {
+		0
+	}
 }
 
 fn conv<'x>(v: Vec<(&'x mut Cell3, Option<bool>)>) -> Flat<'x> {
@@ -451,6 +456,13 @@ fn split<G>(r: PoisonResult<G>) -> (G, bool) {
 }
 
 impl Lk for PM {
+	fn accessors(&self) -> u32 {
+		let p = self.is_poisoned();
+		if !p {
+			self.clear_poison();
+		}
+		2
+	}
 	fn lock<'s>(&'s self, key: ThreadKey, _mode: Mode) -> Box<dyn Held + 's> {
 		let (g, p) = split(self.lock(key));
 		Box::new(HPM(Some(g), Some(p)))
@@ -487,6 +499,13 @@ impl Lk for PM {
 }
 
 impl Lk for PR {
+	fn accessors(&self) -> u32 {
+		let p = self.is_poisoned();
+		if !p {
+			self.clear_poison();
+		}
+		2
+	}
 	fn lock<'s>(&'s self, key: ThreadKey, mode: Mode) -> Box<dyn Held + 's> {
 		match mode {
 			Mode::Excl => {
@@ -555,9 +574,28 @@ impl Lk for PR {
 	}
 }
 
+macro_rules! accessors_impl {
+	(none, $elem:ty) => {
+		fn accessors(&self) -> u32 {
+			0
+		}
+	};
+	(all, $elem:ty) => {
+		fn accessors(&self) -> u32 {
+			let c: &Vec<$elem> = self.child();
+			let n1 = c.len();
+			let n2 = self.iter().count();
+			let n3 = self.into_iter().count();
+			let s: &[$elem] = self.as_ref();
+			assert!(n1 == n2 && n2 == n3 && n3 == s.len());
+			4
+		}
+	};
+}
 macro_rules! lk_vec_m {
-	($coll:ident, $hm:ident, $retry:expr) => {
+	($coll:ident, $hm:ident, $retry:expr, $acc:ident) => {
 		impl Lk for $coll<Vec<M>> {
+			accessors_impl!($acc, M);
 			fn lock<'s>(&'s self, key: ThreadKey, _mode: Mode) -> Box<dyn Held + 's> {
 				Box::new($hm(Some(self.lock(key)), None))
 			}
@@ -593,13 +631,14 @@ macro_rules! lk_vec_m {
 		}
 	};
 }
-lk_vec_m!(OwnedLockCollection, HOwnedM, false);
-lk_vec_m!(BoxedLockCollection, HBoxedM, false);
-lk_vec_m!(RetryingLockCollection, HRetryM, true);
+lk_vec_m!(OwnedLockCollection, HOwnedM, false, none);
+lk_vec_m!(BoxedLockCollection, HBoxedM, false, all);
+lk_vec_m!(RetryingLockCollection, HRetryM, true, all);
 
 macro_rules! lk_vec_r {
-	($coll:ident, $hw:ident, $hr:ident, $retry:expr) => {
+	($coll:ident, $hw:ident, $hr:ident, $retry:expr, $acc:ident) => {
 		impl Lk for $coll<Vec<R>> {
+			accessors_impl!($acc, R);
 			fn lock<'s>(&'s self, key: ThreadKey, mode: Mode) -> Box<dyn Held + 's> {
 				match mode {
 					Mode::Excl => Box::new($hw(Some(self.lock(key)), None)),
@@ -660,9 +699,9 @@ macro_rules! lk_vec_r {
 		}
 	};
 }
-lk_vec_r!(OwnedLockCollection, HOwnedW, HOwnedR, false);
-lk_vec_r!(BoxedLockCollection, HBoxedW, HBoxedR, false);
-lk_vec_r!(RetryingLockCollection, HRetryW, HRetryR, true);
+lk_vec_r!(OwnedLockCollection, HOwnedW, HOwnedR, false, none);
+lk_vec_r!(BoxedLockCollection, HBoxedW, HBoxedR, false, all);
+lk_vec_r!(RetryingLockCollection, HRetryW, HRetryR, true, all);
 
 fn flat_nested_mut<'s>(d: Box<[MData<'s>]>) -> Flat<'s> {
 	let mut out = Vec::new();
@@ -682,6 +721,14 @@ fn flat_nested_ref<'s>(d: Box<[MDataRef<'s>]>) -> Flat<'s> {
 macro_rules! lk_dyn {
 	($ty:ty, $kind:expr, $retry:expr) => {
 		impl<'a, 'b, 'r> Lk for $ty {
+			fn accessors(&self) -> u32 {
+				let c: &Vec<Member<'a, 'b>> = self.child();
+				let n1 = c.len();
+				let n2 = self.iter().count();
+				let s: &[Member<'a, 'b>] = self.as_ref();
+				assert!(n1 == n2 && n2 == s.len());
+				3
+			}
 			fn lock<'s>(&'s self, key: ThreadKey, mode: Mode) -> Box<dyn Held + 's> {
 				match mode {
 					Mode::Excl => Box::new(HDynW(Some(self.lock(key)), $kind)),
@@ -747,6 +794,13 @@ lk_dyn!(RefLockCollection<'r, Vec<Member<'a, 'b>>>, DynKind::Ref, false);
 lk_dyn!(RetryingLockCollection<Vec<Member<'a, 'b>>>, DynKind::Retry, true);
 
 impl<'a, 'b> Lk for Poisonable<BoxedLockCollection<Vec<Member<'a, 'b>>>> {
+	fn accessors(&self) -> u32 {
+		let p = self.is_poisoned();
+		if !p {
+			self.clear_poison();
+		}
+		2
+	}
 	fn lock<'s>(&'s self, key: ThreadKey, mode: Mode) -> Box<dyn Held + 's> {
 		match mode {
 			Mode::Excl => {
